@@ -205,6 +205,14 @@ def conditions(tier, rng):
                     name=f"class-balanced-epoch[{''.join(map(str, layout))};spc={spc0 or 'None'};shuffle={int(shuffle)}]", harness=H, body="body_cb_epoch",
                     cfg=(layout, spc0, shuffle), params=[("seed", "int"), ("epoch", "int")] + ps, pre=["0 <= epoch"] + pre, timeout=to,
                     group="class-balanced-epoch", cost=3 ** len(sizes), bounds="layout and samples_per_class enumerated; every permutation draw, seed, epoch symbolic"))
+    # a class much smaller than samples_per_class (three permutation passes over it)
+    for layout, spc0 in (((0, 1), 3),):
+        sizes = cb_draw_sizes(layout, spc0)
+        ps, pre = flat_params(sizes)
+        conds.append(Cond(
+            name=f"class-balanced-epoch[{''.join(map(str, layout))};spc={spc0};shuffle=1;many-passes]", harness=H, body="body_cb_epoch",
+            cfg=(layout, spc0, True), params=[("seed", "int"), ("epoch", "int")] + ps, pre=["0 <= epoch"] + pre, timeout=to,
+            group="class-balanced-epoch", cost=3 ** len(sizes) * 10, bounds="layout and samples_per_class enumerated; every permutation draw, seed, epoch symbolic"))
     for layout in (SEMI_LAYOUTS_Q if q else SEMI_LAYOUTS_T):
         a = sum(1 for c in layout if c != -1)
         b = len(layout) - a
